@@ -333,7 +333,7 @@ digits: out-of-range (`k + n > 309`, and then the value really exceeds every fin
 Real within one ulp whose magnitude does not fall below the largest finite double when the value
 exceeds it. -/
 theorem realResult_pos (neg : Bool) (v n k off : Nat) (hv0 : 0 < v) (hv : v < 2 ^ 64) (hvn : 10 ^ (n - 1) ≤ v)
-    (hn : 1 ≤ n) (hk : k < 10 ^ 8) (hn19 : n ≤ 19) :
+    (hn : 1 ≤ n) (hk : k < 2 ^ 31) (hn19 : n ≤ 19) :
     (k + n > 309 ∧ realResult neg v n k false off = some ⟨.notANumber, v, off⟩ ∧ (2 ^ 53 - 1) * 2 ^ 971 < v * 10 ^ k) ∨
     (k + n ≤ 309 ∧ ∃ p, realResult neg v n k false off = some ⟨.real, p ||| (if neg then 0x8000000000000000 else 0), off⟩ ∧
         p < 2 ^ 63 ∧ ulpDist p (nearestMag (v * 10 ^ k) 1) ≤ 1 ∧
@@ -363,14 +363,14 @@ theorem minSub_pow325 : 2 ^ 1074 ≤ 10 ^ 325 := by decide +kernel
 
 /-- what `realResult` returns on the negative-exponent side for a mantissa `257 ≤ v < 10^n`, `n ≤ 19`:
 rejected only when the value is below the smallest subnormal, otherwise a Real within one ulp -/
-theorem realResult_neg (neg : Bool) (v n k off : Nat) (hv257 : 257 ≤ v) (hv : v < 2 ^ 64) (hvn : v < 10 ^ n)
-    (hn19 : n ≤ 19) (hk : k < 10 ^ 8) :
+theorem realResult_neg (neg : Bool) (v n k off : Nat) (hv0 : 0 < v) (hvk : k ≤ n + 324 → 2 ^ (k / 27) ≤ 16 * v)
+    (hv : v < 2 ^ 64) (hvn : v < 10 ^ n) (hn19 : n ≤ 19) (hk : k < 2 ^ 31) :
     (k > n + 324 ∧ realResult neg v n k true off = some ⟨.notANumber, v, off⟩ ∧ v * 2 ^ 1074 < 10 ^ k) ∨
     (k ≤ n + 324 ∧ ∃ p, realResult neg v n k true off = some ⟨.real, p ||| (if neg then 0x8000000000000000 else 0), off⟩ ∧
         p < 2 ^ 63 ∧ ulpDist p (nearestMag v (10 ^ k)) ≤ 1) := by
-  have hv0 : v ≠ 0 := by omega
+  have hv0' : v ≠ 0 := by omega
   unfold realResult
-  simp only [ne_eq, hv0, not_false_eq_true, if_true, true_and, Bool.not_true, Bool.false_eq_true, false_and, or_false]
+  simp only [ne_eq, hv0', not_false_eq_true, if_true, true_and, Bool.not_true, Bool.false_eq_true, false_and, or_false]
   by_cases hr : k > n + 324
   · left
     have hsub : sub32 k n = k - n := sub32_eq _ _ (by omega) (by omega)
@@ -386,7 +386,7 @@ theorem realResult_neg (neg : Bool) (v n k off : Nat) (hv257 : 257 ≤ v) (hv : 
       intro ⟨h1, h2⟩
       rw [sub32_eq _ _ (by omega) (by omega)] at h2
       omega
-    obtain ⟨p, hp, hclose⟩ := powerOfNegativeTen_close v k hv257 hv (by omega)
+    obtain ⟨p, hp, hclose⟩ := powerOfNegativeTen_close v k hv0 (hvk (by omega)) hv (by omega)
     exact ⟨by omega, p, by simp [hc, hp], powerOfNegativeTen_lt v k p hp, hclose⟩
 
 end Qentem.StrToNum
